@@ -83,6 +83,9 @@ def case_line(case: dict, capi_ok: bool, inputs: list[str], inits: list[str]) ->
 # --------------------------------------------------------------------------- building the real model
 
 
+BODY_OWNERS = ("If", "Loop", "Scan", "SequenceMap", "MultiBody")
+
+
 def vi(name, shape, t=TP.FLOAT):
     return h.make_tensor_value_info(name, t, shape)
 
@@ -225,10 +228,17 @@ def _emit_nodes(b: _B, nodes: list, out_sink: list, funcs_sig=None):
                 outs_per.append(bouts)
             nout = max(len(o) for o in outs_per) if outs_per else 0
             onames = [f"{p}_y{j}" for j in range(nout)]
-            n = h.make_node("If", [f"{p}_c"], onames, domain="" if node["d"] else b.custom_domain)
-            names = ["then_branch", "else_branch"] + [f"extra_branch{j}" for j in range(len(graphs))]
-            for nm, g in zip(names, graphs):
-                n.attribute.append(h.make_attribute(nm, g))
+            # the owner of the subgraphs: `If` (then/else), or any other operator with graph-valued attributes
+            # (Loop / Scan / SequenceMap: `body`), or one GRAPHS-typed attribute holding all bodies (`MultiBody`)
+            owner = op["name"] if op["k"] == "P" and op.get("name") in BODY_OWNERS else "If"
+            n = h.make_node(owner, [f"{p}_c"], onames, domain="" if node["d"] else b.custom_domain)
+            if owner == "MultiBody":
+                n.attribute.append(h.make_attribute("branches", graphs))
+            else:
+                first = ["then_branch", "else_branch"] if owner == "If" else ["body"]
+                names = first + [f"extra_branch{j}" for j in range(len(graphs))]
+                for nm, g in zip(names, graphs):
+                    n.attribute.append(h.make_attribute(nm, g))
             if node["ref"]:
                 a = onnx.AttributeProto()
                 a.name, a.ref_attr_name, a.type = "verif_ref", "verif_a", onnx.AttributeProto.INT
@@ -338,7 +348,14 @@ def apply_versions(model, case: dict) -> None:
         for irn, cn in zip(ir_nodes, case_nodes):
             irn.version = cn["v"]
             if cn.get("bodies"):
-                graphs = [a.as_graph() for a in irn.attributes.values() if not a.is_ref() and a.type.name == "GRAPH"]
+                graphs = []
+                for a in irn.attributes.values():
+                    if a.is_ref():
+                        continue
+                    if a.type.name == "GRAPH":
+                        graphs.append(a.as_graph())
+                    elif a.type.name == "GRAPHS":
+                        graphs.extend(a.as_graphs())
                 for gr, body in zip(graphs, cn["bodies"]):
                     set_nodes(gr, body)
 
